@@ -352,3 +352,22 @@ Proof.
   intro Pne. unfold is_suffix, trim_end_matches. rewrite rev_involutive. apply trim_start_stops.
   intro E. apply Pne. rewrite <- (rev_involutive p), E. reflexivity.
 Qed.
+
+(* length of replace's result: every occurrence trades len p bytes for len r bytes *)
+Lemma join_length (sep : bytes) : forall ps, ps <> [] ->
+  (length (join sep ps) = length (concat ps) + (length ps - 1) * length sep)%nat.
+Proof.
+  induction ps as [|x ps IH]; intro NE; [congruence|].
+  destruct ps as [|y ps]; [simpl; rewrite app_nil_r; lia|].
+  change (join sep (x :: y :: ps)) with (x ++ sep ++ join sep (y :: ps)).
+  rewrite !app_length, IH by discriminate. cbn [concat length]. rewrite !app_length. lia.
+Qed.
+
+Lemma replace_length s p r : p <> [] ->
+  (length (op_replace s p r) + (length (pieces p s) - 1) * length p =
+   length s + (length (pieces p s) - 1) * length r)%nat.
+Proof.
+  intro Pne. destruct (replace_lemma s p r Pne) as [J [R _]].
+  assert (NE : pieces p s <> []) by apply pieces_fuel_nonempty.
+  pose proof (join_length p _ NE) as Lp. rewrite J in Lp. rewrite R, (join_length r _ NE). lia.
+Qed.
